@@ -106,6 +106,8 @@ def run(ctx):
                        r["full_tree"], r["parent_tree"], r["loadable"], r["inc_abs"], r["model_tree"], r["detail"]), r)
     res = ctx.go_results[-1]
     cnt = res.get("counters", {})
+    if cnt.get("premise_real_differs_from_model", 0) > max(2, n // 50):
+        raise verif.MachineryError("the real file system left the model's premise at %d backup points" % cnt["premise_real_differs_from_model"])
     if cnt.get("points_with_parent", 0) < 10:
         raise verif.MachineryError("only %d backup points used a parent" % cnt.get("points_with_parent", 0))
     cov = {"evaluations": n, "distinct_nontrivial": res["distinct_nontrivial"], "rule": res["rule"], "samples": verif.samples_from(lines, 3),
